@@ -3,8 +3,8 @@
  "name": "p1x_ea_ibody_entry_detect",
  "props": ["C02", "C06"],
  "level": "U/iter",
- "tier": "wip",
- "tier_after_hooks": "quick",
+ "tier": "thorough",
+ "tier_after_hooks": "thorough",
  "harness": "h_eai_detect",
  "loop_contracts": true,
  "replace": ["region_allocate", "inc_ea_inode_refs"],
@@ -27,7 +27,8 @@
  "name": "p1x_ea_ibody_terminated",
  "props": ["C02"],
  "level": "U/iter",
- "tier": "wip",
+ "tier": "quick",
+ "tier_after_fix": "thorough",
  "harness": "h_eai_detect",
  "defines": ["EAI_TERMINATED"],
  "loop_contracts": true,
@@ -48,7 +49,7 @@
  "props": ["C05", "C06"],
  "level": "U/iter",
  "tier": "wip",
- "tier_after_hooks": "quick",
+ "tier_after_hooks": "thorough",
  "harness": "h_eai_sound",
  "loop_contracts": true,
  "replace": ["region_allocate", "inc_ea_inode_refs"],
